@@ -40,7 +40,7 @@ Children == 1..NChild
 RECURSIVE SumSizes(_)
 SumSizes(s) == IF s = <<>> THEN 0 ELSE Head(s)[2] + SumSizes(Tail(s))
 
-Pre0 == [size |-> 0, sz |-> 0, bad |-> FALSE]
+Pre0 == [size |-> 0, sz |-> 0, bad |-> FALSE, closeCalled |-> FALSE]
 Init ==
   /\ buf = [c \in Children |-> <<>>]
   /\ closed = [c \in Children |-> FALSE] /\ dead = [c \in Children |-> FALSE]
@@ -95,7 +95,7 @@ Apply(o) ==
 
 Cur0 == [c \in Children |-> St(c)]
 Step(op) == nops' = nops + 1 /\ lastOp' = op
-Pre(sz) == pre' = [size |-> SumSizes(cur), sz |-> sz, bad |-> curBad]
+Pre(sz) == pre' = [size |-> SumSizes(cur), sz |-> sz, bad |-> curBad, closeCalled |-> (pre.closeCalled \/ lastOp = "close")]
 
 (* kind: "w" Write, "wb" WriteByte, "ws" WriteString - one length check, one append for all three *)
 Write(kind, id, sz) ==
@@ -170,5 +170,9 @@ FittingAccepted == (lastOp \in Writes /\ Healthy /\ pre.size + pre.sz <= MaxLen)
 FlushOkWhenHealthy == (lastOp = "flush" /\ Healthy) => res = "ok"
 NotOpenAfterClose == (lastOp \in Writes \cup {"flush"} /\ AllClosed) => res = "notopen"
 CloseIdempotent == (lastOp = "close" /\ ~destFailed) => (res = "ok" /\ AllClosed)
+(* ... whatever the first Close returned (the socket may have been dead already): Close was CALLED, so every later
+   write or flush is refused as not open, and on one destination a further Close returns nil *)
+UseAfterCloseNotOpen == (lastOp \in Writes \cup {"flush"} /\ pre.closeCalled) => res = "notopen"
+SecondCloseOk == (lastOp = "close" /\ ~Multi /\ pre.closeCalled) => res = "ok"
 NeverPanics == res # "PANIC"
 =============================================================================
